@@ -239,7 +239,9 @@ def ledger_route(ctx, i):
     for text, kinds in [('SELECT account, sum(position) AS total GROUP BY account', ['str', 'inventory']),
                         ('SELECT date, position, weight, price WHERE number > 0', ['date', 'position', 'amount', 'amount']),
                         ('SELECT account, year, sum(position) AS s GROUP BY 1, 2 PIVOT BY 1, 2', None),
-                        ('SELECT account, balance WHERE account ~ "Nope"', ['str', 'inventory'])]:
+                        ('SELECT account, balance WHERE account ~ "Nope"', ['str', 'inventory']),
+                        ('SELECT account, position.units AS amt WHERE number != 0', ['str', 'amount']),
+                        ('SELECT weight.currency AS c, price AS p, position.units AS u, entry.flag AS f', ['str', 'amount', 'amount', 'str'])]:
         case = {'statement': text, 'ledger': led.text}
         try:
             plain_t, plain_r = query.run_query(entries, options, text)
